@@ -32,6 +32,7 @@ ByRecord(a) ==
     [] a.op = "raise" -> Raise(a.cls)
     [] a.op = "makegen" -> MakeGen(a.kind, a.k)
     [] a.op = "gennext" -> GenNext
+    [] a.op = "genclose" -> GenClose
     [] a.op = "makedc" -> MakeDC(a.k)
     [] a.op = "baddc" -> BadDC(a.catches)
 
